@@ -42,6 +42,12 @@ var c04Fns = []model.FunctionType{
 	model.FunctionTypeElectricalConnectionParameterDescriptionListData, // control: no flag, two keys
 }
 
+var c04FlagField = map[model.FunctionType]string{
+	model.FunctionTypeLoadControlLimitListData:            "IsLimitChangeable",
+	model.FunctionTypeSetpointListData:                    "IsSetpointChangeable",
+	model.FunctionTypeDeviceConfigurationKeyValueListData: "IsValueChangeable",
+}
+
 var c04Shapes = []string{"full", "partial-ids", "partial-ids+unknown", "partial-ids+flag", "noid", "noid+flag", "selector", "selector+flag",
 	"delete-selector", "delete-elements", "delete-elements(flag)", "delete-selector-elements", "delete-selector-elements(flag)", "delete-selector+partial-ids", "delete-elements+partial-ids", "delete-selector+selector"}
 
@@ -429,6 +435,22 @@ func c04Case(c *rig.Ctx) {
 	if li == nil {
 		c.Violate("harness-list", "list function %s not discovered", fn)
 		return
+	}
+	// the changeability flag of each type is named by the statement, not read from the library's struct tags
+	// (a flag that lost its tag would otherwise turn the type into a flag-less control)
+	if name, ok := c04FlagField[fn]; ok {
+		cp := *li
+		cp.WriteCheck = -1
+		for i := 0; i < cp.ElemT.NumField(); i++ {
+			if cp.ElemT.Field(i).Name == name {
+				cp.WriteCheck = i
+			}
+		}
+		if cp.WriteCheck < 0 {
+			c.Violate("harness-list", "%s: element type %s has no field %s", fn, cp.ElemT.Name(), name)
+			return
+		}
+		li = &cp
 	}
 	r := c.Rand
 	T := featureTypeOf(fn)
